@@ -18,6 +18,7 @@ import (
 	"github.com/thought-machine/please/src/cli"
 	"github.com/thought-machine/please/src/core"
 	"github.com/thought-machine/please/src/fs"
+	"github.com/thought-machine/please/src/verifhook"
 )
 
 type httpCache struct {
@@ -91,6 +92,9 @@ func (cache *httpCache) write(w io.WriteCloser, target *core.BuildTarget, files 
 func storeFile(tw *tar.Writer, name string) error {
 	info, err := os.Lstat(name)
 	if err != nil {
+		return err
+	}
+	if err := verifhook.Fault("cache.storeFile"); err != nil {
 		return err
 	}
 	target := ""
